@@ -13,6 +13,9 @@
 -/
 import OtterVerif.Props.C10
 import OtterVerif.Conc.Flight
+import OtterVerif.Conc.EventsSkeleton
+import OtterVerif.Conc.FlightSkeleton
+import OtterVerif.Gen.Skeleton
 
 namespace OtterVerif.Props.C09
 open OtterVerif.Conc.Flight
@@ -54,5 +57,14 @@ theorem c09_example : ∃ s, Reach s ∧ s.orphaned 0 = true ∧ s.installed 0 =
   · simp [upd]
   · simp [upd]
   · simp [upd]
+
+/-! ### The model's `kill` step is the code's: EVERY write, invalidation and removal unregisters the key's call, unconditionally
+     (skeletons regenerated from /repo on every run: `call delete` under `if cl==nil` only, before anything else) -/
+theorem skeleton_cache_atomicSet : Gen.Skeleton.cache_atomicSet = Conc.EventsSkeleton.cache_atomicSet := by decide
+theorem skeleton_cache_atomicDelete : Gen.Skeleton.cache_atomicDelete = Conc.EventsSkeleton.cache_atomicDelete := by decide
+theorem skeleton_cache_deleteNodeFromMap : Gen.Skeleton.cache_deleteNodeFromMap = Conc.EventsSkeleton.cache_deleteNodeFromMap := by decide
+theorem skeleton_group_delete : Gen.Skeleton.group_delete = Conc.FlightSkeleton.group_delete := by decide
+theorem skeleton_group_deleteCall : Gen.Skeleton.group_deleteCall = Conc.FlightSkeleton.group_deleteCall := by decide
+theorem skeleton_cache_afterDeleteCall : Gen.Skeleton.cache_afterDeleteCall = Conc.FlightSkeleton.cache_afterDeleteCall := by decide
 
 end OtterVerif.Props.C09
